@@ -19,6 +19,12 @@ Peers/PeersProofs.vos Peers/PeersProofs.vok Peers/PeersProofs.required_vos: Peer
 Headers/Tree.vo Headers/Tree.glob Headers/Tree.v.beautified Headers/Tree.required_vo: Headers/Tree.v Base/Prelude.vo Base/Compact.vo
 Headers/Tree.vio: Headers/Tree.v Base/Prelude.vio Base/Compact.vio
 Headers/Tree.vos Headers/Tree.vok Headers/Tree.required_vos: Headers/Tree.v Base/Prelude.vos Base/Compact.vos
+Headers/Splits.vo Headers/Splits.glob Headers/Splits.v.beautified Headers/Splits.required_vo: Headers/Splits.v Base/Prelude.vo Gen/Consts.vo Headers/Tree.vo
+Headers/Splits.vio: Headers/Splits.v Base/Prelude.vio Gen/Consts.vio Headers/Tree.vio
+Headers/Splits.vos Headers/Splits.vok Headers/Splits.required_vos: Headers/Splits.v Base/Prelude.vos Gen/Consts.vos Headers/Tree.vos
+Headers/SplitsProofs.vo Headers/SplitsProofs.glob Headers/SplitsProofs.v.beautified Headers/SplitsProofs.required_vo: Headers/SplitsProofs.v Base/Prelude.vo Gen/Consts.vo Headers/Tree.vo Headers/Splits.vo
+Headers/SplitsProofs.vio: Headers/SplitsProofs.v Base/Prelude.vio Gen/Consts.vio Headers/Tree.vio Headers/Splits.vio
+Headers/SplitsProofs.vos Headers/SplitsProofs.vok Headers/SplitsProofs.required_vos: Headers/SplitsProofs.v Base/Prelude.vos Gen/Consts.vos Headers/Tree.vos Headers/Splits.vos
 Headers/Pow.vo Headers/Pow.glob Headers/Pow.v.beautified Headers/Pow.required_vo: Headers/Pow.v Base/Prelude.vo Base/Compact.vo Gen/Consts.vo Headers/Tree.vo
 Headers/Pow.vio: Headers/Pow.v Base/Prelude.vio Base/Compact.vio Gen/Consts.vio Headers/Tree.vio
 Headers/Pow.vos Headers/Pow.vok Headers/Pow.required_vos: Headers/Pow.v Base/Prelude.vos Base/Compact.vos Gen/Consts.vos Headers/Tree.vos
@@ -70,3 +76,6 @@ Props/C17.vos Props/C17.vok Props/C17.required_vos: Props/C17.v Base/Prelude.vos
 Props/C02.vo Props/C02.glob Props/C02.v.beautified Props/C02.required_vo: Props/C02.v Base/Prelude.vo Base/Compact.vo Gen/Consts.vo Gen/Fixture.vo Headers/Tree.vo Headers/Pow.vo Headers/PowProofs.vo
 Props/C02.vio: Props/C02.v Base/Prelude.vio Base/Compact.vio Gen/Consts.vio Gen/Fixture.vio Headers/Tree.vio Headers/Pow.vio Headers/PowProofs.vio
 Props/C02.vos Props/C02.vok Props/C02.required_vos: Props/C02.v Base/Prelude.vos Base/Compact.vos Gen/Consts.vos Gen/Fixture.vos Headers/Tree.vos Headers/Pow.vos Headers/PowProofs.vos
+Props/C03.vo Props/C03.glob Props/C03.v.beautified Props/C03.required_vo: Props/C03.v Base/Prelude.vo Gen/Consts.vo Headers/Tree.vo Headers/Splits.vo Headers/SplitsProofs.vo
+Props/C03.vio: Props/C03.v Base/Prelude.vio Gen/Consts.vio Headers/Tree.vio Headers/Splits.vio Headers/SplitsProofs.vio
+Props/C03.vos Props/C03.vok Props/C03.required_vos: Props/C03.v Base/Prelude.vos Gen/Consts.vos Headers/Tree.vos Headers/Splits.vos Headers/SplitsProofs.vos
